@@ -686,7 +686,8 @@ class C06(core.Check):
         settings = {k: v for k, v in mesh.settings.items()}
         obs = {
             "decl": decl,
-            "tokens": tokenize(text),
+            "tokens": tokenize(text),  # the Python tokenizer: since round 6c only a cross-check of the model's `lexText`
+            "text": text,
             "vtk": vtk.split() if vtk is not None else None,
             "vtk_missing": vtk_missing,
             "tails": tails,
@@ -706,6 +707,8 @@ class C06(core.Check):
         reqs = ["c06.render " + w, "c06.parse " + " ".join(esc(t) for t in impl["tokens"])]
         if impl["vtk"] is not None:
             reqs.append("c06.vtk " + w)
+        # the raw text of the written file: tokenized and compared with the rendering inside the model
+        reqs.append("c06.file " + w_str(impl["text"]) + " " + w)
         return reqs
 
     def compare(self, case: dict, impl: Any, model: List[str]) -> Optional[str]:
@@ -748,6 +751,17 @@ class C06(core.Check):
                 return "parseVtk does not read the model's VTK back"
             if mv.group(2) != "1":
                 return "a VTK coordinate printed by the model fails the validator reprOk / reprShortest"
+        mf = re.fullmatch(r"ok same=(\d) wf=(\d) relex=(\d) at=(\S+) T ?(.*)", model[-1])
+        if not mf:
+            return "model file: " + model[-1][:200]
+        ft = [unesc(t) for t in mf.group(5).split(" ")] if mf.group(5) else []
+        if mf.group(1) != "1":
+            i = int(mf.group(4)) if mf.group(4) != "-" else 0
+            return f"the text of the file, tokenized by the model, differs from the model's rendering at token {i}: file {ft[max(0, i - 4):i + 4]}, model {toks[max(0, i - 4):i + 4]}"
+        if ft != real:
+            return f"the model's tokenizer and the harness' tokenizer disagree on the text of the file: {len(ft)} / {len(real)} tokens"
+        if mf.group(2) != "1" or mf.group(3) != "1":
+            return f"a rendered token is not well-formed (wf={mf.group(2)}) or the rendering does not read back from its text (relex={mf.group(3)}): instance of T_C06_lex_unlex fails"
         return None
 
     # ------------------------------------------------------------------ oracle: the property on the file itself
@@ -760,6 +774,8 @@ class C06(core.Check):
                 for k in ("words", "tokens", "vtk", "vpos"):
                     if isinstance(impl.get(k), list):
                         impl[k] = f"<{len(impl[k])} items>"
+                if isinstance(impl.get("text"), str):
+                    impl["text"] = f"<{len(impl['text'])} characters>"
                 if isinstance(impl.get("decl"), dict):
                     impl["decl"] = {"entities": [{"cls": e["cls"], "ops": len(e["ops"]), "geometry": sorted(e["geometry"])} for e in impl["decl"]["entities"]]}
 
